@@ -347,7 +347,8 @@ fn matrix(rng: &mut Rng, cfg: &CfgLine, keys: &BTreeSet<String>, tables: &Tables
 /// complete matrix is replayed against the acknowledged bindings. Also: a failure that is NOT retried,
 /// followed by other management requests (the shape of the former finding
 /// `ack-not-durable:failed-set-resurfaces`, repaired in /repo 5c65d83; corpus 12 is its regression).
-/// Faults whose PUT landed (`fault2`) are not generated: see corpus 13 (pending) and notes/C14.md.
+/// One fault in three is a `fault2`: the PUT landed and is reported failed (former counterexample,
+/// repaired in /repo 39a09a9; corpus 13 is its regression).
 fn fault_scenarios(g: &mut Gen, out: &mut Vec<Op>) {
     let cfg = g.cfg.clone();
     let rounds = 1 + g.rng.below(3);
@@ -384,7 +385,14 @@ fn fault_scenarios(g: &mut Gen, out: &mut Vec<Op>) {
             }
         };
         let first = mk(g);
-        out.push(Op::Fault(k));
+        // one fault in three is of the kind "the PUT landed, the failure is reported afterwards" (the write of
+        // storage_meta.cbor that follows db_meta.cbor fails); not for db.create, whose several flushes within
+        // one millisecond make it uncertain which of them writes storage_meta at all
+        if kind != 5 && g.rng.chance(1, 3) {
+            out.push(Op::Fault2(0));
+        } else {
+            out.push(Op::Fault(k));
+        }
         out.push(first.clone());
         let retried = g.rng.chance(3, 4);
         if retried {
